@@ -24,6 +24,10 @@ pub enum Op {
     EphChain { m: u8, n: u8 },
     /// weak-table entry (roots[m][key] -> roots[m][value])
     Eph { m: u8, key: u8, value: u8 },
+    /// a fixed grid of unrooted allocations with non-trivial alignment / offset: sizes around
+    /// page multiples (small and large-object space) and a long run of small over-aligned
+    /// objects; every result is checked for overlap with what was handed out before
+    AlignBurst { m: u8 },
     Drop { m: u8, slot: u8 },
     Gc { m: u8, full: bool },
     Pin { m: u8, slot: u8 },
@@ -44,6 +48,7 @@ impl Op {
             Op::Burst { m, size, count, keep } => json!({"op": "burst", "m": m, "size": size, "count": count, "keep": keep}),
             Op::EphChain { m, n } => json!({"op": "ephchain", "m": m, "n": n}),
             Op::Eph { m, key, value } => json!({"op": "eph", "m": m, "key": key, "value": value}),
+            Op::AlignBurst { m } => json!({"op": "alignburst", "m": m}),
             Op::Drop { m, slot } => json!({"op": "drop", "m": m, "slot": slot}),
             Op::Gc { m, full } => json!({"op": "gc", "m": m, "full": full}),
             Op::Pin { m, slot } => json!({"op": "pin", "m": m, "slot": slot}),
@@ -61,6 +66,7 @@ impl Op {
             "burst" => Op::Burst { m: u("m"), size: v["size"].as_u64().unwrap() as u32, count: v["count"].as_u64().unwrap() as u16, keep: u("keep") },
             "ephchain" => Op::EphChain { m: u("m"), n: u("n") },
             "eph" => Op::Eph { m: u("m"), key: u("key"), value: u("value") },
+            "alignburst" => Op::AlignBurst { m: u("m") },
             "drop" => Op::Drop { m: u("m"), slot: u("slot") },
             "gc" => Op::Gc { m: u("m"), full: v["full"].as_bool().unwrap_or(true) },
             "pin" => Op::Pin { m: u("m"), slot: u("slot") },
@@ -89,6 +95,8 @@ pub struct Alphabet {
     pub gc_kinds: Vec<bool>,
     /// (size, count, keep-every) bursts
     pub bursts: Vec<(u32, u16, u8)>,
+    /// offer `AlignBurst`
+    pub align_bursts: bool,
     /// chain lengths offered for `EphChain` (empty = no weak-table ops)
     pub eph_chains: Vec<u8>,
     pub two_mutators: bool,
@@ -127,6 +135,9 @@ impl Abs {
                     v.push(Op::EphChain { m, n });
                 }
             }
+        }
+        if a.align_bursts {
+            v.push(Op::AlignBurst { m: 0 });
         }
         for &m in ms {
             for src in 0..SLOTS as u8 {
@@ -202,7 +213,7 @@ impl Abs {
                 self.pinned[m as usize][s] = false;
                 self.dirty = true;
             }
-            Op::Write { .. } | Op::Eph { .. } => self.dirty = true,
+            Op::Write { .. } | Op::Eph { .. } | Op::AlignBurst { .. } => self.dirty = true,
             Op::Drop { m, slot } => {
                 self.occ[m as usize][slot as usize] = false;
                 self.pinned[m as usize][slot as usize] = false;
@@ -334,6 +345,21 @@ pub fn step(w: &mut World, op: &Op) -> Result<(), Fail> {
                 }
             }
             w.set_root(m, tmp, None);
+        }
+        Op::AlignBurst { m } => {
+            let m = m as usize;
+            for &(align, offset) in &[(8usize, 0usize), (16, 8), (32, 8), (64, 8), (64, 56), (16, 0)] {
+                for &size in &[4088usize, 4096, 8184, 8192, 12280, 12288, 16376] {
+                    for sem in [Sem::Default, Sem::Los] {
+                        w.alloc_aligned_garbage(m, size, align, offset, sem)?;
+                    }
+                }
+            }
+            // a long run of small over-aligned objects in one allocation buffer
+            for i in 0..1500usize {
+                let (align, offset) = if i % 3 == 0 { (16, 0) } else { (16, 8) };
+                w.alloc_aligned_garbage(m, 24, align, offset, Sem::Default)?;
+            }
         }
         Op::EphChain { m, n } => {
             let m = m as usize;
